@@ -241,3 +241,121 @@ func diffParts(a, b map[string]uint64) string {
 	}
 	return fmt.Sprint(ks)
 }
+
+// deepPoison fills the spare capacity (the bytes between len and cap) of every byte slice
+// reachable from x with 0xEE, except where that memory is live data of another reachable byte
+// slice (sub-slices of one image).  Spare capacity left by io.ReadAll is zero, so a stray
+// append of zero padding into it would not change any hash; after poisoning it does.
+// It returns the number of bytes poisoned.
+func deepPoison(x any) int {
+	type span struct {
+		b []byte // the full capacity
+		l int
+	}
+	var spans []span
+	seen := map[ptrKey]bool{}
+	var walk func(v reflect.Value)
+	walk = func(v reflect.Value) {
+		if !v.IsValid() {
+			return
+		}
+		switch v.Kind() {
+		case reflect.Interface:
+			if !v.IsNil() {
+				walk(v.Elem())
+			}
+		case reflect.Pointer:
+			if v.IsNil() {
+				return
+			}
+			k := ptrKey{v.Pointer(), v.Type(), 0}
+			if seen[k] {
+				return
+			}
+			seen[k] = true
+			walk(v.Elem())
+		case reflect.Struct:
+			if v.Type() == timeType {
+				return
+			}
+			for i := 0; i < v.NumField(); i++ {
+				walk(v.Field(i))
+			}
+		case reflect.Array:
+			for i := 0; i < v.Len(); i++ {
+				walk(v.Index(i))
+			}
+		case reflect.Map:
+			if v.IsNil() {
+				return
+			}
+			it := v.MapRange()
+			for it.Next() {
+				walk(it.Value())
+			}
+		case reflect.Slice:
+			if v.IsNil() || v.Cap() == 0 {
+				return
+			}
+			k := ptrKey{v.Pointer(), v.Type(), v.Cap()}
+			if seen[k] {
+				return
+			}
+			seen[k] = true
+			if v.Type().Elem().Kind() == reflect.Uint8 {
+				spans = append(spans, span{v.Slice(0, v.Cap()).Bytes(), v.Len()})
+				return
+			}
+			switch v.Type().Elem().Kind() {
+			case reflect.Interface, reflect.Pointer, reflect.Struct, reflect.Array, reflect.Map, reflect.Slice:
+				for i := 0; i < v.Len(); i++ {
+					walk(v.Index(i))
+				}
+			}
+		}
+	}
+	walk(reflect.ValueOf(x))
+	// live intervals, by address
+	type iv struct{ lo, hi uintptr }
+	addr := func(b []byte) uintptr { return reflect.ValueOf(b).Pointer() }
+	var live []iv
+	for _, s := range spans {
+		if s.l > 0 {
+			live = append(live, iv{addr(s.b), addr(s.b) + uintptr(s.l)})
+		}
+	}
+	sort.Slice(live, func(i, j int) bool { return live[i].lo < live[j].lo })
+	var merged []iv // disjoint union
+	for _, x := range live {
+		if k := len(merged); k > 0 && x.lo <= merged[k-1].hi {
+			if x.hi > merged[k-1].hi {
+				merged[k-1].hi = x.hi
+			}
+		} else {
+			merged = append(merged, x)
+		}
+	}
+	n := 0
+	for _, s := range spans {
+		base := addr(s.b)
+		p, end := base+uintptr(s.l), base+uintptr(len(s.b))
+		for p < end {
+			// first live interval ending after p
+			i := sort.Search(len(merged), func(i int) bool { return merged[i].hi > p })
+			if i < len(merged) && merged[i].lo <= p {
+				p = merged[i].hi // inside live data: skip it
+				continue
+			}
+			stop := end
+			if i < len(merged) && merged[i].lo < stop {
+				stop = merged[i].lo
+			}
+			for q := p; q < stop; q++ {
+				s.b[q-base] = 0xEE
+			}
+			n += int(stop - p)
+			p = stop
+		}
+	}
+	return n
+}
